@@ -257,6 +257,33 @@ pub fn run() -> i32 {
             }
         }
     }
+    // the named presets, with libsodium's own constants as the reference costs (sensitive is
+    // 1 GiB x 4 passes: about 5 s in each implementation)
+    {
+        let mut presets: Vec<(&str, Config, usize, usize)> = unsafe {
+            vec![
+                ("interactive", Config::interactive(), libsodium_sys::crypto_pwhash_opslimit_interactive(), libsodium_sys::crypto_pwhash_memlimit_interactive()),
+                ("default", Config::default(), libsodium_sys::crypto_pwhash_opslimit_interactive(), libsodium_sys::crypto_pwhash_memlimit_interactive()),
+                ("moderate", Config::moderate(), libsodium_sys::crypto_pwhash_opslimit_moderate(), libsodium_sys::crypto_pwhash_memlimit_moderate()),
+            ]
+        };
+        presets.push(("sensitive", Config::sensitive(), unsafe { libsodium_sys::crypto_pwhash_opslimit_sensitive() }, unsafe { libsodium_sys::crypto_pwhash_memlimit_sensitive() }));
+        for (name, cfg, ops, mem) in presets {
+            let pw = b"preset".to_vec();
+            let salt = kval(seed ^ 0x45, 2, 16);
+            let (_, want_sk, _) = sodium::argon2_raw(ops as u32, (mem / 1024) as u32, &pw, &salt, 32, 2, false);
+            let want_pk = sodium::scalarmult_base(want_sk.as_slice().try_into().unwrap());
+            let r = guarded(AssertUnwindSafe(|| {
+                let kp: KeyPair<SB<32>, SB<32>> = PwHash::<Vec<u8>, Vec<u8>>::derive_keypair(&pw, salt.clone(), cfg).unwrap();
+                kp.secret_key.as_slice() == &want_sk[..] && kp.public_key.as_slice() == &want_pk[..]
+            }));
+            let ok = r == Ok(true);
+            st.eval(&("pw-kp-preset", name), true, if ok { "derive_keypair==libsodium" } else { "derive_keypair-differs" });
+            if !ok {
+                fail(&mut st, "derive_keypair", "differs/preset", format!("PwHash::derive_keypair under Config::{}() differs from libsodium's crypto_pwhash at its {} limits -> base multiplication: {:?}", name, name, r), json!({"kind": "pw"}));
+            }
+        }
+    }
     // memory limits below the minimum must be refused here as everywhere else
     for mem in [0usize, 1024, 7169, 8191] {
         let r = guarded(AssertUnwindSafe(|| PwHash::<Vec<u8>, Vec<u8>>::derive_keypair::<_, SB<32>, SB<32>>(&b"x".to_vec(), vec![1u8; 16], Config::interactive().with_opslimit(1).with_memlimit(mem)).is_ok()));
